@@ -17,227 +17,25 @@ MCAddNames4 == {"a", "a1", "a2", "io0", "type1", "typeParam"}
 MCPkgsP == {[name |-> "io", path |-> "io"], [name |-> "io", path |-> "x/io"],
             [name |-> "src", path |-> "q/src"], [name |-> "src", path |-> "s/src"]}
 \* probe-template route: the real source package ("src") and a foreign package of the same name
-MCPkgsT == MCPkgs4 \cup {[name |-> "src", path |-> "q/src"], [name |-> "src", path |-> "src"]}
+MCPkgsT == MCPkgs4 \cup {[name |-> "src", path |-> "q/src"], [name |-> "src", path |-> "src"],
+                       [name |-> "c", path |-> "x/io-b/c"], [name |-> "c", path |-> "x/io/c"]}
 MCPrefixesP == {"io", "src"}
 MCAddNamesP == {"io0", "src"}
 \* deep alphabet: ONE prefix allocated many times (suffix >= 10) and a dozen same-named packages (alias index >= 10)
 MCPkgsDeep == {[name |-> "io", path |-> "d/" \o ToString(i)] : i \in 10..22}
 MCPrefixesDeep == {"a"}
 MCAddNamesDeep == {"a3", "a11"}
-====\* package-focused alphabet: a path that is a "/"-suffix of another one ("io" vs "x/io"), a package named like
-\* the source package, and the source package itself (= destination path: external test package unless in-package)
-MCPkgsP == {[name |-> "io", path |-> "io"], [name |-> "io", path |-> "x/io"],
-            [name |-> "src", path |-> "q/src"], [name |-> "src", path |-> "s/src"]}
-\* probe-template route: the real source package ("src") and a foreign package of the same name
-MCPkgsT == MCPkgs4 \cup {[name |-> "src", path |-> "q/src"], [name |-> "src", path |-> "src"]}
-MCPrefixesP == {"io", "src"}
-MCAddNamesP == {"io0", "src"}
-\* deep alphabet: ONE prefix allocated many times (suffix >= 10) and a dozen same-named packages (alias index >= 10)
-MCPkgsDeep == {[name |-> "io", path |-> "d/" \o ToString(i)] : i \in 10..22}
-MCPrefixesDeep == {"a"}
-MCAddNamesDeep == {"a3", "a11"}
-====\* package-focused alphabet: a path that is a "/"-suffix of another one ("io" vs "x/io"), a package named like
-\* the source package, and the source package itself (= destination path: external test package unless in-package)
-MCPkgsP == {[name |-> "io", path |-> "io"], [name |-> "io", path |-> "x/io"],
-            [name |-> "src", path |-> "q/src"], [name |-> "src", path |-> "s/src"]}
-\* probe-template route: the real source package ("src") and a foreign package of the same name
-MCPkgsT == MCPkgs4 \cup {[name |-> "src", path |-> "q/src"], [name |-> "src", path |-> "src"]}
-MCPrefixesP == {"io", "src"}
-MCAddNamesP == {"io0", "src"}
-\* deep alphabet: ONE prefix allocated many times (suffix >= 10) and a dozen same-named packages (alias index >= 10)
-MCPkgsDeep == {[name |-> "io", path |-> "d/" \o ToString(i)] : i \in 10..22}
-MCPrefixesDeep == {"a"}
-MCAddNamesDeep == {"a3", "a11"}
-====\* package-focused alphabet: a path that is a "/"-suffix of another one ("io" vs "x/io"), a package named like
-\* the source package, and the source package itself (= destination path: external test package unless in-package)
-MCPkgsP == {[name |-> "io", path |-> "io"], [name |-> "io", path |-> "x/io"],
-            [name |-> "src", path |-> "q/src"], [name |-> "src", path |-> "s/src"]}
-\* probe-template route: the real source package ("src") and a foreign package of the same name
-MCPkgsT == MCPkgs4 \cup {[name |-> "src", path |-> "q/src"], [name |-> "src", path |-> "src"]}
-MCPrefixesP == {"io", "src"}
-MCAddNamesP == {"io0", "src"}
-\* deep alphabet: ONE prefix allocated many times (suffix >= 10) and a dozen same-named packages (alias index >= 10)
-MCPkgsDeep == {[name |-> "io", path |-> "d/" \o ToString(i)] : i \in 10..22}
-MCPrefixesDeep == {"a"}
-MCAddNamesDeep == {"a3", "a11"}
-====\* package-focused alphabet: a path that is a "/"-suffix of another one ("io" vs "x/io"), a package named like
-\* the source package, and the source package itself (= destination path: external test package unless in-package)
-MCPkgsP == {[name |-> "io", path |-> "io"], [name |-> "io", path |-> "x/io"],
-            [name |-> "src", path |-> "q/src"], [name |-> "src", path |-> "s/src"]}
-\* probe-template route: the real source package ("src") and a foreign package of the same name
-MCPkgsT == MCPkgs4 \cup {[name |-> "src", path |-> "q/src"], [name |-> "src", path |-> "src"]}
-MCPrefixesP == {"io", "src"}
-MCAddNamesP == {"io0", "src"}
-\* deep alphabet: ONE prefix allocated many times (suffix >= 10) and a dozen same-named packages (alias index >= 10)
-MCPkgsDeep == {[name |-> "io", path |-> "d/" \o ToString(i)] : i \in 10..22}
-MCPrefixesDeep == {"a"}
-MCAddNamesDeep == {"a3", "a11"}
-====\* package-focused alphabet: a path that is a "/"-suffix of another one ("io" vs "x/io"), a package named like
-\* the source package, and the source package itself (= destination path: external test package unless in-package)
-MCPkgsP == {[name |-> "io", path |-> "io"], [name |-> "io", path |-> "x/io"],
-            [name |-> "src", path |-> "q/src"], [name |-> "src", path |-> "s/src"]}
-\* probe-template route: the real source package ("src") and a foreign package of the same name
-MCPkgsT == MCPkgs4 \cup {[name |-> "src", path |-> "q/src"], [name |-> "src", path |-> "src"]}
-MCPrefixesP == {"io", "src"}
-MCAddNamesP == {"io0", "src"}
-\* deep alphabet: ONE prefix allocated many times (suffix >= 10) and a dozen same-named packages (alias index >= 10)
-MCPkgsDeep == {[name |-> "io", path |-> "d/" \o ToString(i)] : i \in 10..22}
-MCPrefixesDeep == {"a"}
-MCAddNamesDeep == {"a3", "a11"}
-====\* package-focused alphabet: a path that is a "/"-suffix of another one ("io" vs "x/io"), a package named like
-\* the source package, and the source package itself (= destination path: external test package unless in-package)
-MCPkgsP == {[name |-> "io", path |-> "io"], [name |-> "io", path |-> "x/io"],
-            [name |-> "src", path |-> "q/src"], [name |-> "src", path |-> "s/src"]}
-\* probe-template route: the real source package ("src") and a foreign package of the same name
-MCPkgsT == MCPkgs4 \cup {[name |-> "src", path |-> "q/src"], [name |-> "src", path |-> "src"]}
-MCPrefixesP == {"io", "src"}
-MCAddNamesP == {"io0", "src"}
-\* deep alphabet: ONE prefix allocated many times (suffix >= 10) and a dozen same-named packages (alias index >= 10)
-MCPkgsDeep == {[name |-> "io", path |-> "d/" \o ToString(i)] : i \in 10..22}
-MCPrefixesDeep == {"a"}
-MCAddNamesDeep == {"a3", "a11"}
-====\* package-focused alphabet: a path that is a "/"-suffix of another one ("io" vs "x/io"), a package named like
-\* the source package, and the source package itself (= destination path: external test package unless in-package)
-MCPkgsP == {[name |-> "io", path |-> "io"], [name |-> "io", path |-> "x/io"],
-            [name |-> "src", path |-> "q/src"], [name |-> "src", path |-> "s/src"]}
-\* probe-template route: the real source package ("src") and a foreign package of the same name
-MCPkgsT == MCPkgs4 \cup {[name |-> "src", path |-> "q/src"], [name |-> "src", path |-> "src"]}
-MCPrefixesP == {"io", "src"}
-MCAddNamesP == {"io0", "src"}
-\* deep alphabet: ONE prefix allocated many times (suffix >= 10) and a dozen same-named packages (alias index >= 10)
-MCPkgsDeep == {[name |-> "io", path |-> "d/" \o ToString(i)] : i \in 10..22}
-MCPrefixesDeep == {"a"}
-MCAddNamesDeep == {"a3", "a11"}
-====\* package-focused alphabet: a path that is a "/"-suffix of another one ("io" vs "x/io"), a package named like
-\* the source package, and the source package itself (= destination path: external test package unless in-package)
-MCPkgsP == {[name |-> "io", path |-> "io"], [name |-> "io", path |-> "x/io"],
-            [name |-> "src", path |-> "q/src"], [name |-> "src", path |-> "s/src"]}
-\* probe-template route: the real source package ("src") and a foreign package of the same name
-MCPkgsT == MCPkgs4 \cup {[name |-> "src", path |-> "q/src"], [name |-> "src", path |-> "src"]}
-MCPrefixesP == {"io", "src"}
-MCAddNamesP == {"io0", "src"}
-\* deep alphabet: ONE prefix allocated many times (suffix >= 10) and a dozen same-named packages (alias index >= 10)
-MCPkgsDeep == {[name |-> "io", path |-> "d/" \o ToString(i)] : i \in 10..22}
-MCPrefixesDeep == {"a"}
-MCAddNamesDeep == {"a3", "a11"}
-====\* package-focused alphabet: a path that is a "/"-suffix of another one ("io" vs "x/io"), a package named like
-\* the source package, and the source package itself (= destination path: external test package unless in-package)
-MCPkgsP == {[name |-> "io", path |-> "io"], [name |-> "io", path |-> "x/io"],
-            [name |-> "src", path |-> "q/src"], [name |-> "src", path |-> "s/src"]}
-\* probe-template route: the real source package ("src") and a foreign package of the same name
-MCPkgsT == MCPkgs4 \cup {[name |-> "src", path |-> "q/src"], [name |-> "src", path |-> "src"]}
-MCPrefixesP == {"io", "src"}
-MCAddNamesP == {"io0", "src"}
-\* deep alphabet: ONE prefix allocated many times (suffix >= 10) and a dozen same-named packages (alias index >= 10)
-MCPkgsDeep == {[name |-> "io", path |-> "d/" \o ToString(i)] : i \in 10..22}
-MCPrefixesDeep == {"a"}
-MCAddNamesDeep == {"a3", "a11"}
-====\* package-focused alphabet: a path that is a "/"-suffix of another one ("io" vs "x/io"), a package named like
-\* the source package, and the source package itself (= destination path: external test package unless in-package)
-MCPkgsP == {[name |-> "io", path |-> "io"], [name |-> "io", path |-> "x/io"],
-            [name |-> "src", path |-> "q/src"], [name |-> "src", path |-> "s/src"]}
-\* probe-template route: the real source package ("src") and a foreign package of the same name
-MCPkgsT == MCPkgs4 \cup {[name |-> "src", path |-> "q/src"], [name |-> "src", path |-> "src"]}
-MCPrefixesP == {"io", "src"}
-MCAddNamesP == {"io0", "src"}
-\* deep alphabet: ONE prefix allocated many times (suffix >= 10) and a dozen same-named packages (alias index >= 10)
-MCPkgsDeep == {[name |-> "io", path |-> "d/" \o ToString(i)] : i \in 10..22}
-MCPrefixesDeep == {"a"}
-MCAddNamesDeep == {"a3", "a11"}
-====\* package-focused alphabet: a path that is a "/"-suffix of another one ("io" vs "x/io"), a package named like
-\* the source package, and the source package itself (= destination path: external test package unless in-package)
-MCPkgsP == {[name |-> "io", path |-> "io"], [name |-> "io", path |-> "x/io"],
-            [name |-> "src", path |-> "q/src"], [name |-> "src", path |-> "s/src"]}
-\* probe-template route: the real source package ("src") and a foreign package of the same name
-MCPkgsT == MCPkgs4 \cup {[name |-> "src", path |-> "q/src"], [name |-> "src", path |-> "src"]}
-MCPrefixesP == {"io", "src"}
-MCAddNamesP == {"io0", "src"}
-\* deep alphabet: ONE prefix allocated many times (suffix >= 10) and a dozen same-named packages (alias index >= 10)
-MCPkgsDeep == {[name |-> "io", path |-> "d/" \o ToString(i)] : i \in 10..22}
-MCPrefixesDeep == {"a"}
-MCAddNamesDeep == {"a3", "a11"}
-====\* package-focused alphabet: a path that is a "/"-suffix of another one ("io" vs "x/io"), a package named like
-\* the source package, and the source package itself (= destination path: external test package unless in-package)
-MCPkgsP == {[name |-> "io", path |-> "io"], [name |-> "io", path |-> "x/io"],
-            [name |-> "src", path |-> "q/src"], [name |-> "src", path |-> "s/src"]}
-\* probe-template route: the real source package ("src") and a foreign package of the same name
-MCPkgsT == MCPkgs4 \cup {[name |-> "src", path |-> "q/src"], [name |-> "src", path |-> "src"]}
-MCPrefixesP == {"io", "src"}
-MCAddNamesP == {"io0", "src"}
-\* deep alphabet: ONE prefix allocated many times (suffix >= 10) and a dozen same-named packages (alias index >= 10)
-MCPkgsDeep == {[name |-> "io", path |-> "d/" \o ToString(i)] : i \in 10..22}
-MCPrefixesDeep == {"a"}
-MCAddNamesDeep == {"a3", "a11"}
-====\* package-focused alphabet: a path that is a "/"-suffix of another one ("io" vs "x/io"), a package named like
-\* the source package, and the source package itself (= destination path: external test package unless in-package)
-MCPkgsP == {[name |-> "io", path |-> "io"], [name |-> "io", path |-> "x/io"],
-            [name |-> "src", path |-> "q/src"], [name |-> "src", path |-> "s/src"]}
-\* probe-template route: the real source package ("src") and a foreign package of the same name
-MCPkgsT == MCPkgs4 \cup {[name |-> "src", path |-> "q/src"], [name |-> "src", path |-> "src"]}
-MCPrefixesP == {"io", "src"}
-MCAddNamesP == {"io0", "src"}
-\* deep alphabet: ONE prefix allocated many times (suffix >= 10) and a dozen same-named packages (alias index >= 10)
-MCPkgsDeep == {[name |-> "io", path |-> "d/" \o ToString(i)] : i \in 10..22}
-MCPrefixesDeep == {"a"}
-MCAddNamesDeep == {"a3", "a11"}
-====\* package-focused alphabet: a path that is a "/"-suffix of another one ("io" vs "x/io"), a package named like
-\* the source package, and the source package itself (= destination path: external test package unless in-package)
-MCPkgsP == {[name |-> "io", path |-> "io"], [name |-> "io", path |-> "x/io"],
-            [name |-> "src", path |-> "q/src"], [name |-> "src", path |-> "s/src"]}
-\* probe-template route: the real source package ("src") and a foreign package of the same name
-MCPkgsT == MCPkgs4 \cup {[name |-> "src", path |-> "q/src"], [name |-> "src", path |-> "src"]}
-MCPrefixesP == {"io", "src"}
-MCAddNamesP == {"io0", "src"}
-\* deep alphabet: ONE prefix allocated many times (suffix >= 10) and a dozen same-named packages (alias index >= 10)
-MCPkgsDeep == {[name |-> "io", path |-> "d/" \o ToString(i)] : i \in 10..22}
-MCPrefixesDeep == {"a"}
-MCAddNamesDeep == {"a3", "a11"}
-====\* package-focused alphabet: a path that is a "/"-suffix of another one ("io" vs "x/io"), a package named like
-\* the source package, and the source package itself (= destination path: external test package unless in-package)
-MCPkgsP == {[name |-> "io", path |-> "io"], [name |-> "io", path |-> "x/io"],
-            [name |-> "src", path |-> "q/src"], [name |-> "src", path |-> "s/src"]}
-\* probe-template route: the real source package ("src") and a foreign package of the same name
-MCPkgsT == MCPkgs4 \cup {[name |-> "src", path |-> "q/src"], [name |-> "src", path |-> "src"]}
-MCPrefixesP == {"io", "src"}
-MCAddNamesP == {"io0", "src"}
-\* deep alphabet: ONE prefix allocated many times (suffix >= 10) and a dozen same-named packages (alias index >= 10)
-MCPkgsDeep == {[name |-> "io", path |-> "d/" \o ToString(i)] : i \in 10..22}
-MCPrefixesDeep == {"a"}
-MCAddNamesDeep == {"a3", "a11"}
-====\* package-focused alphabet: a path that is a "/"-suffix of another one ("io" vs "x/io"), a package named like
-\* the source package, and the source package itself (= destination path: external test package unless in-package)
-MCPkgsP == {[name |-> "io", path |-> "io"], [name |-> "io", path |-> "x/io"],
-            [name |-> "src", path |-> "q/src"], [name |-> "src", path |-> "s/src"]}
-\* probe-template route: the real source package ("src") and a foreign package of the same name
-MCPkgsT == MCPkgs4 \cup {[name |-> "src", path |-> "q/src"], [name |-> "src", path |-> "src"]}
-MCPrefixesP == {"io", "src"}
-MCAddNamesP == {"io0", "src"}
-\* deep alphabet: ONE prefix allocated many times (suffix >= 10) and a dozen same-named packages (alias index >= 10)
-MCPkgsDeep == {[name |-> "io", path |-> "d/" \o ToString(i)] : i \in 10..22}
-MCPrefixesDeep == {"a"}
-MCAddNamesDeep == {"a3", "a11"}
-====\* package-focused alphabet: a path that is a "/"-suffix of another one ("io" vs "x/io"), a package named like
-\* the source package, and the source package itself (= destination path: external test package unless in-package)
-MCPkgsP == {[name |-> "io", path |-> "io"], [name |-> "io", path |-> "x/io"],
-            [name |-> "src", path |-> "q/src"], [name |-> "src", path |-> "s/src"]}
-\* probe-template route: the real source package ("src") and a foreign package of the same name
-MCPkgsT == MCPkgs4 \cup {[name |-> "src", path |-> "q/src"], [name |-> "src", path |-> "src"]}
-MCPrefixesP == {"io", "src"}
-MCAddNamesP == {"io0", "src"}
-\* deep alphabet: ONE prefix allocated many times (suffix >= 10) and a dozen same-named packages (alias index >= 10)
-MCPkgsDeep == {[name |-> "io", path |-> "d/" \o ToString(i)] : i \in 10..22}
-MCPrefixesDeep == {"a"}
-MCAddNamesDeep == {"a3", "a11"}
-====\* package-focused alphabet: a path that is a "/"-suffix of another one ("io" vs "x/io"), a package named like
-\* the source package, and the source package itself (= destination path: external test package unless in-package)
-MCPkgsP == {[name |-> "io", path |-> "io"], [name |-> "io", path |-> "x/io"],
-            [name |-> "src", path |-> "q/src"], [name |-> "src", path |-> "s/src"]}
-\* probe-template route: the real source package ("src") and a foreign package of the same name
-MCPkgsT == MCPkgs4 \cup {[name |-> "src", path |-> "q/src"], [name |-> "src", path |-> "src"]}
-MCPrefixesP == {"io", "src"}
-MCAddNamesP == {"io0", "src"}
-\* deep alphabet: ONE prefix allocated many times (suffix >= 10) and a dozen same-named packages (alias index >= 10)
-MCPkgsDeep == {[name |-> "io", path |-> "d/" \o ToString(i)] : i \in 10..22}
-MCPrefixesDeep == {"a"}
-MCAddNamesDeep == {"a3", "a11"}
-=====
+\* non-ASCII identifiers: TLC sees the ASCII token QxxQ (xx = hex code point), the harness maps it to the rune
+\* before the real objects are called and back before validation ("gQf6Q" is g + o-umlaut, "Q43aQ" is Cyrillic ka)
+MCPrefixesU == {"gQf6Q", "Q43aQ"}
+MCAddNamesU == {"gQf6Q", "gQf6Q1", "Q43aQ"}
+MCPkgsU == {[name |-> "io", path |-> "x/io"], [name |-> "io", path |-> "y/io"]}
+\* import paths whose byte-wise order differs from their element-wise ("/"-split) order: '-' and '.' sort below '/'
+MCPkgsPath == {[name |-> "io", path |-> "x/io"], [name |-> "c", path |-> "x/io-b/c"], [name |-> "c", path |-> "x/io/c"],
+               [name |-> "v3", path |-> "x/io.v3"]}
+MCPrefixesPath == {"c"}
+MCAddNamesPath == {"c0"}
+\* probe-template route (simulation): the ASCII alphabets plus one non-ASCII prefix / name and the path-order package name
+MCPrefixesS == MCPrefixes \cup {"gQf6Q", "c", "rp"}
+MCAddNamesS == MCAddNames4 \cup {"gQf6Q1", "Q43aQ"}
+====
